@@ -30,3 +30,4 @@ open GqlVerif.C07
 #print axioms toSchema_perm
 #print axioms frontends_iso_perm
 #print axioms codegen_perm_eq_mapTypes
+#print axioms GqlVerif.C07.idxOf_bijection
